@@ -34,5 +34,5 @@ class C04(DTDCheck):
     def defect_cases(self):
         # reader count driven wrong by a task that reads one datum through two flows: a later
         # writer starts while readers of the datum are still running
-        seq = "0x ; 0r 0r 0x ; " + " ; ".join(["0r"] * 6) + " ; 0x ; " + " ; ".join(["0r"] * 6) + " ; 0x"
+        seq = "0x ; 0r 0r 0x ; " + " ; ".join([" ; ".join(["0r"] * 5) + " ; 0x"] * 8)
         return ["dtd 1 8 lfq 0 0 %d 0 | %s" % (s, seq) for s in (11, 12, 13)]
